@@ -38,7 +38,7 @@ EPS = 1e-6
 
 def plan(tier):
     q = tier == "quick"
-    out = [{"name": "main", "examples": 2000 if q else 300000}]
+    out = [{"name": "main", "examples": 8000 if q else 300000}]
     for f in findings.open_for(PROPERTY):
         if f.exclude_profile:
             out.append({"name": "probe:" + f.id, "examples": 400 if q else 4000, "shards": 4})
